@@ -188,6 +188,8 @@ def compare_query(sc, py, lean, observables):
         if ob == "segments":
             # per-next() laziness: events and signals call by call (python vs mach only)
             continue
+        if ob == "attempts" and not drained:
+            continue   # a count is only comparable for a drained search
         a, b = project(fpy, ob), project(fsp, ob)
         ok = (a == b) if drained else (b[:len(a)] == a)
         if not ok:
